@@ -62,7 +62,7 @@ func (pdb *PebbleKV) DeletePrefix(prefix []byte) error {
 		found = false
 		wb := make([][]byte, 0, deleteBlockSize)
 		it := pdb.db.NewIter(&pebble.IterOptions{LowerBound: prefix})
-		for ; it.Valid() && bytes.HasPrefix(it.Key(), prefix) && len(wb) < deleteBlockSize-1; it.Next() {
+		for it.SeekGE(prefix); it.Valid() && bytes.HasPrefix(it.Key(), prefix) && len(wb) < deleteBlockSize-1; it.Next() {
 			wb = append(wb, copyBytes(it.Key()))
 		}
 		it.Close()
